@@ -723,7 +723,22 @@ def check_C15():
     em = run_tlc("MCTraversal", "Traversal_%d_emit.cfg" % n, timeout=1200)
     tlc_must_pass(em, "Traversal.tla emitter")
     rc, rep = harness_run(vh, ["traversal-replay", em["out"], "@REPORT"], timeout=3000)
+    extra = {}
+    for xcfg, what in (("Traversal_D", "two (root, selector) pairs n1, n2 through the root module's SelectiveCar (fresh visit-once record and budget per pair, output = first occurrences over both)"),
+                       ("Traversal_A", "the last node's bytes linked under a second codec as well (same multihash, other CID: a block of its own) over all DAGs on 3 nodes")):
+        xm = run_tlc("MCTraversal", xcfg + ".cfg", timeout=1200)
+        tlc_must_pass(xm, "Traversal.tla invariants (%s)" % xcfg)
+        xe = run_tlc("MCTraversal", xcfg + "_emit.cfg", timeout=1200)
+        tlc_must_pass(xe, "Traversal.tla emitter (%s)" % xcfg)
+        rcx, repx = harness_run(vh, ["traversal-replay", xe["out"], "@REPORT"], timeout=3000)
+        rep["evaluations"] += repx["evaluations"]
+        rep["distinct_nontrivial"] += repx["distinct_nontrivial"]
+        rep["violations"] = (rep["violations"] or []) + (repx["violations"] or [])
+        rep["inconclusive"] = (rep.get("inconclusive") or []) + (repx.get("inconclusive") or [])
+        rep["model_drift"] = (rep.get("model_drift") or []) + (repx.get("model_drift") or [])
+        extra[xcfg] = "%s: %d cases" % (what, repx["evaluations"])
     cov = merge_cov(model, em, rep, {
+        "further_configurations": extra,
         "rule": "every DAG over 4 nodes (ordered links to later nodes only, <= 3 links at the root and <= 2 elsewhere, repeats and shared subtrees, dag-cbor inner nodes and raw leaves) x selector "
                 "{explore-all-recursive, depth-limited 1..3, field paths <<1>>, <<2>>, <<1,1>>, <<2,1>> ending in a matcher} x link-visit-once on/off x link budget {none, 1, 3}, with paddings and index codec / none varied per case; each through v2 NewSelectiveWriter "
                 "(both passes recorded), TraverseV1, TraverseToFile, root-module SelectiveCar Write / Prepare (Size, Cids) / Dump with block callbacks; the observed load sequence of the wrapped link system "
